@@ -282,6 +282,90 @@ pub fn c05_cases(rng: &mut Rng, tier: &str, out: &mut Out) {
     }
 }
 
+/// Rewrite every file id of a layer-less block stream with `f` (ids are opaque u64 in the
+/// format: an independent writer may number files any way it likes).
+pub fn remap_ids(bytes: &[u8], header_len: usize, f: impl Fn(u64) -> u64) -> Option<Vec<u8>> {
+    let mut out = bytes.to_vec();
+    let body = &bytes[header_len..];
+    let mut p = 0usize;
+    loop {
+        let t = *body.get(p)?;
+        if t == 0xFE {
+            return Some(out);
+        }
+        let id = u64::from_le_bytes(body.get(p + 1..p + 9)?.try_into().ok()?);
+        out[header_len + p + 1..header_len + p + 9].copy_from_slice(&f(id).to_le_bytes());
+        p += 9;
+        match t {
+            0 | 1 => {
+                let l = u64::from_le_bytes(body.get(p..p + 8)?.try_into().ok()?) as usize;
+                p += 8 + l;
+            }
+            0xFF => p += 32,
+            _ => return None,
+        }
+    }
+}
+
+/// C05 on archives whose file ids are not 0, 1, 2.. in start order (layer-less; ids remapped by
+/// +1, by a large constant, and reversed): the normal reader still reads them, and repairing
+/// the undamaged archive recovers every file completely.
+pub fn c05_ids_cases(rng: &mut Rng, tier: &str, out: &mut Out) {
+    let n = if tier == "thorough" { 120 } else { 24 };
+    let mut done = 0;
+    while done < n {
+        let mut plan = gen_plan(rng, 0);
+        if plan.pieces.is_empty() {
+            continue;
+        }
+        plan.recipients = 1;
+        plan.reader_key = 0;
+        let Ok(built) = build(rng, &plan) else { continue };
+        let nf = plan.names.len() as u64;
+        let kind = done % 3;
+        let remapped = match kind {
+            0 => remap_ids(&built.bytes, built.header_len, |i| i + 1),
+            1 => remap_ids(&built.bytes, built.header_len, |i| i + (1 << 40) + 7),
+            _ => remap_ids(&built.bytes, built.header_len, |i| nf - 1 - i.min(nf - 1)),
+        };
+        let Some(bytes) = remapped else { continue };
+        let mut msg: Option<String> = None;
+        // the normal reader does not care about the ids
+        let ops = full_read_ops(rng, plan.names.len());
+        let rows = run_history(&bytes, &[], &plan.names, &ops, true);
+        let b2 = Built { bytes: bytes.clone(), header_len: built.header_len, key: built.key, nonce: built.nonce, privs: vec![], contents: built.contents.clone() };
+        if let Err(e) = oracle_read(&plan, &b2, &ops, &rows) {
+            msg = Some(format!("archive with remapped file ids (kind {kind}): {e}"));
+        }
+        let r = repair_bytes(&bytes, &[], false);
+        if msg.is_none() {
+            if let Some(p) = &r.crashed {
+                msg = Some(format!("repair of an undamaged archive with remapped file ids (kind {kind}) panicked: {p}"));
+            } else if r.status != Some(12) || !r.unfinished.is_empty() {
+                msg = Some(format!("repair of an undamaged archive with remapped file ids (kind {kind}): status {:?}, {} unfinished", r.status, r.unfinished.len()));
+            } else {
+                for (i, c) in built.contents.iter().enumerate() {
+                    if r.files.iter().find(|f| f.0 == plan.names[i]).map(|f| &f.1) != Some(c) {
+                        msg = Some(format!("repair of an undamaged archive with remapped file ids (kind {kind}): file {i} not recovered completely"));
+                    }
+                }
+            }
+        }
+        out.case(&Case {
+            id: format!("c05-ids-{done}"),
+            model_fn: "repair_plain",
+            args: vec![jbytes(&bytes[built.header_len..])],
+            imp: json!(r.rows),
+            oracle_ok: msg.is_none(),
+            oracle_msg: msg.unwrap_or_default(),
+            class: format!("remapped-ids kind={kind} files={}", plan.names.len()),
+            nontrivial: true,
+            meta: json!({"kind": kind, "files": plan.names.len(), "len": bytes.len()}),
+        });
+        done += 1;
+    }
+}
+
 /// C05, completeness on undamaged COMPRESSED archives spanning many blocks (where a block's
 /// compressed stream ends relative to the fail-safe reader's refills varies from archive to
 /// archive): repaired from memory and from sources returning 1, 2, 3 or 7 bytes per read.
